@@ -51,7 +51,7 @@ int main(int argc, char** argv) {
   } else if (mode == "sparse") {
     long count = std::strtol(argv[2], nullptr, 10);
     for (long i = 0; i < count; ++i) {
-      Graph g = sparse_graph(rng, i);
+      Graph g = i % 2 == 1 ? hub_graph(rng, i) : sparse_graph(rng, i);
       rec.run_all("S." + std::to_string(seed) + "." + std::to_string(i), g, false);
     }
     std::fprintf(out, "{\"kind\":\"summary\",\"build\":\"%s\",\"inputs\":%ld,\"calls\":%ld}\n", build.c_str(), count, rec.calls);
